@@ -563,6 +563,11 @@ class Resolver:
                 else:
                     vals = self.callable_values(arg, g, {})
                 if not vals:
+                    # a builtin or external function passed as a value (max, min, json.load, ...): no repo effects of its own
+                    c = self.index.canon(arg, g.module if arg is not None and hasattr(g, "module") else finfo.module) if isinstance(arg, (ast.Name, ast.Attribute)) else None
+                    if c is not None and not c.startswith("gwf.") and self.index.lookup(c) is None:
+                        out.append(f"ext:{c}")
+                        continue
                     return None
                 out.extend(v[0] for v in vals)
         finally:
